@@ -61,6 +61,7 @@ inductive Pc where
   | ins (r : Req) (b : Nat) (acc : List Nat)   -- next: exit of the wrapped `next()`
   | setC (r : Req) (b : Nat)                   -- next: `completed.store(true, SeqCst)`
   | pub (r : Req) (b : Nat) (acc : List Nat)   -- next: `yielded.fetch_add(r.len, AcqRel)`
+  | unw (b n : Nat)                            -- unwinding out of `next()`: next: `completed.store(true, SeqCst)` by the guard
   | dead (b n : Nat)                           -- unwound out of the critical section
   deriving Repr, DecidableEq, Inhabited
 
@@ -118,7 +119,7 @@ def step (s : Script) (t : Nat) (c : Cfg) : Cfg :=
       if r.isSingle then setTh c' t { x with pc := .setC r b }
       else if r.isChunk ∧ acc = [] then setTh c' t { x with pc := .setC r b }
       else setTh c' t { x with pc := .pub r b acc }
-    | .panic => setTh c' t { x with pc := .dead b r.len }
+    | .panic => setTh c' t { x with pc := .unw b r.len }
   | .setC r b =>
     if r.isSingle then setTh { c with C := true } t (ret x r .fin)
     else setTh { c with C := true } t { x with pc := .pub r b [] }
@@ -129,6 +130,7 @@ def step (s : Script) (t : Nat) (c : Cfg) : Cfg :=
     | v :: rest =>
       if r.isSingle then setTh c' t (ret x r (.item b v))
       else setTh c' t (ret x r (.chunk b (v :: rest)))
+  | .unw b n => setTh { c with C := true } t { x with pc := .dead b n }
   | .dead _ _ => c
 
 /-- the machine-word version: counters wrap at `2^64` -/
@@ -154,6 +156,7 @@ def emit (s : Script) (t : Nat) (c : Cfg) : Option Ev :=
   | .ins _ _ _ => some (.srcExit (s c.P))
   | .setC _ _ => some (.st .C .seqcst 1)
   | .pub r _ _ => some (.faa .Y .acqrel c.Y r.len)
+  | .unw _ _ => some (.st .C .seqcst 1)
   | .dead _ _ => none
 
 def init (ps : Nat → List Req) : Cfg := { th := fun t => { todo := ps t } }
